@@ -4,6 +4,7 @@
     numbers of source/target cells and arbitrary sorted boundary lists.
     Weight matrices are indexed [target source]. *)
 From Dino Require Import Base.Ops Base.Sums Base.Inst Base.Ord Model.Regrid Thm.Regrid.
+From Dino Require Import Model.Filters Gen.RegridSrc Thm.RegridSrc.
 From Coq Require Import Reals Qcanon Lra.
 Local Open Scope F_scope.
 
@@ -382,6 +383,37 @@ Proof.
     + apply Qc_is_canon; vm_compute; reflexivity.
 Qed.
 
+(** ** Tie to the source by translation (regenerated on every run).
+    The scalar kernels the theorems above are about ARE the code of
+    dinosaur/horizontal_interpolation.py / vertical_interpolation.py: [*_src]
+    are transcribed from the AST by tools/translate/gen_regrid.py
+    (_align_phase_with, _periodic_upper/lower_bounds, _periodic_overlap with its
+    three periodic images in source order, _interval_overlap, the returned
+    expression of _latitude_overlap). *)
+Theorem C16_model_is_source {F : Type} {o : Ops F} {Fc : FieldC o}
+    (x target period x0 x1 y0 y1 : F) (n : nat) (xs sb tb st ss : nat -> F) (i j : nat) :
+  align_phase x target period = align_phase_src x target period /\
+  per_upper n period xs i = per_upper_src (xs i) (roll_m1 n xs i) period /\
+  per_lower n period xs i = per_lower_src (xs i) (roll_p1 n xs i) period /\
+  per_overlap period x0 x1 y0 y1 = per_overlap_src period x0 x1 y0 y1 /\
+  interval_overlap sb tb i j = interval_overlap_src (tb i) (tb (S i)) (sb j) (sb (S j)) /\
+  lat_overlap tb sb st ss i j =
+    lat_overlap_src (if fleb (tb i) (sb j) then sb j else tb i)
+                    (if fleb (tb (S i)) (sb (S j)) then tb (S i) else sb (S j))
+                    (if fleb (tb i) (sb j) then ss j else st i)
+                    (if fleb (tb (S i)) (sb (S j)) then st (S i) else ss (S j)).
+Proof.
+  split; [apply align_phase_matches_source|].
+  split; [apply (per_bounds_match_source n period xs i)|].
+  split; [apply (per_bounds_match_source n period xs i)|].
+  split; [apply per_overlap_matches_source|].
+  split; [apply interval_overlap_matches_source|].
+  apply lat_overlap_matches_source.
+Qed.
+
+Theorem C16_gen_regrid_complete : gen_regrid_ok = true.
+Proof. exact gen_regrid_complete. Qed.
+
 Print Assumptions C16_partition_overlap.
 Print Assumptions C16_weights_nonneg.
 Print Assumptions C16_rows_sum_to_one.
@@ -407,3 +439,5 @@ Print Assumptions C16_horizontal_integral_conserved.
 Print Assumptions C16_cyclic_points_satisfiable.
 Print Assumptions C16_longitude_coarse_conserves.
 Print Assumptions C16_hyps_satisfiable.
+Print Assumptions C16_model_is_source.
+Print Assumptions C16_gen_regrid_complete.
